@@ -176,32 +176,88 @@ def check(ctx: Ctx) -> None:
     # ---------------- R5.5 ---------------------------------------------------------------
     preds = {}
     flags: Dict[str, Set[str]] = {}
-    for qual, attr in (("DataSet.get_frequencies", "_frequencies"), ("DataSet.get_impedances", "_impedances")):
-        fi = model.fi(DS, qual)
-        shape = _filter_shape(fi.node, attr)
-        if shape is None:
-            raise AnalysisError(f"{qual}: filter expression not recognised (neither a comprehension over enumerate(self.{attr}) nor boolean indexing of self.{attr})")
-        preds[qual], flags[qual], src_ok, elt_ok = shape
-        ctx.instance("R5.5", f"{qual}: predicate {preds[qual]}")
-        if not src_ok:
-            ctx.violation("R5.5", f"{qual}:source", DS, fi.node, f"{qual} does not filter self.{attr}")
-        if not elt_ok:
-            ctx.violation("R5.5", f"{qual}:element", DS, fi.node, f"{qual} does not yield the enumerated item")
-        d = fi.node.args.defaults
-        if not (len(d) == 1 and isinstance(d[0], ast.Constant) and d[0].value is False):
-            ctx.violation("R5.5", f"{qual}:default", DS, fi.node, f"{qual}: default of `masked` is not False (analyses rely on it to exclude masked points)")
-        else:
-            ctx.ok()
-    vals = set(preds.values())
-    if len(vals) != 1:
-        ctx.violation("R5.5", "getters:predicate-mismatch", DS, model.fi(DS, "DataSet.get_impedances").node,
-                      f"get_frequencies and get_impedances filter with different predicates: {preds}")
+    ds_methods = {n: m.node for n, m in model.classes[f"{DS}:DataSet"].methods.items()}
+
+    def self_reads(fn_node, seen=None) -> Set[str]:
+        seen = seen if seen is not None else set()
+        out: Set[str] = set()
+        for x in ast.walk(fn_node):
+            if isinstance(x, ast.Attribute) and dotted(x.value) == "self":
+                if x.attr in ds_methods and x.attr not in seen:
+                    seen.add(x.attr)
+                    out |= self_reads(ds_methods[x.attr], seen)
+                elif x.attr not in ds_methods:
+                    out.add(x.attr)
+        return out
+    core = {"_frequencies", "_impedances", "_mask"}
+    getters = (("DataSet.get_frequencies", "_frequencies"), ("DataSet.get_impedances", "_impedances"))
+    reads = {q: self_reads(model.fi(DS, q).node) for q, _ in getters}
+    if all(r <= core for r in reads.values()):
+        # the getters depend on the mask only through look-ups: interpret them (AST, sa.miniinterp) on every mask over up to
+        # four points (each key absent / False / True) and both selections, and compare with the specification
+        from itertools import product
+        from ..miniinterp import InterpRaise, Mini, Obj
+        stubs = {"array": lambda x, *a, **k: list(x), "_is_boolean": lambda x: isinstance(x, bool), "Frequency": float, "ComplexImpedance": complex,
+                 "where": None, "NDArray": None}
+        for qual, attr in getters:
+            fi = model.fi(DS, qual)
+            d = fi.node.args.defaults
+            ctx.instance("R5.5", f"{qual}: default of `masked` is False")
+            if not (len(d) == 1 and isinstance(d[0], ast.Constant) and d[0].value is False):
+                ctx.violation("R5.5", f"{qual}:default", DS, fi.node, f"{qual}: default of `masked` is not False (analyses rely on it to exclude masked points)")
+            else:
+                ctx.ok()
+            witness = None
+            n_w = 0
+            for n in range(0, 5):
+                for combo in product(("absent", False, True), repeat=n):
+                    mask = {i: v for i, v in enumerate(combo) if v != "absent"}
+                    for masked in (None, False, True):
+                        n_w += 1
+                        me = Obj(Mini(stubs), ds_methods, {"_frequencies": [("f", i) for i in range(n)], "_impedances": [("Z", i) for i in range(n)], "_mask": dict(mask)})
+                        try:
+                            got = list(Mini(stubs).call_function(fi.node, {"self": me, "masked": masked}))
+                        except InterpRaise as e:
+                            got = e.kind
+                        tag = "f" if attr == "_frequencies" else "Z"
+                        want = [(tag, i) for i in range(n) if masked is None or mask.get(i, False) == masked]
+                        if got != want and witness is None:
+                            witness = (mask, masked, got, want)
+            ctx.instance("R5.5", f"{qual}: selection on all {n_w} (mask, masked) combinations over 0..4 points")
+            if witness is None:
+                ctx.ok()
+            else:
+                mask, masked, got, want = witness
+                ctx.violation("R5.5", "getters:predicate-mismatch" if isinstance(got, list) else f"{qual}:raises", DS, fi.node,
+                              f"{qual}(masked={masked}) with mask {mask} returns the points {got} instead of {want}: frequencies and impedances no longer select the same points")
+        flags = {q: set() for q, _ in getters}
     else:
-        p = next(iter(vals))
-        if p in ("self._mask.get(<i>, False) == masked",) or (p.startswith("self.") and p.endswith(" == masked")):
-            ctx.ok()  # x == True / x == False partition the index set
+        for qual, attr in getters:
+            fi = model.fi(DS, qual)
+            shape = _filter_shape(fi.node, attr)
+            if shape is None:
+                raise AnalysisError(f"{qual}: filter expression not recognised (neither a comprehension over enumerate(self.{attr}) nor boolean indexing of self.{attr})")
+            preds[qual], flags[qual], src_ok, elt_ok = shape
+            ctx.instance("R5.5", f"{qual}: predicate {preds[qual]}")
+            if not src_ok:
+                ctx.violation("R5.5", f"{qual}:source", DS, fi.node, f"{qual} does not filter self.{attr}")
+            if not elt_ok:
+                ctx.violation("R5.5", f"{qual}:element", DS, fi.node, f"{qual} does not yield the enumerated item")
+            d = fi.node.args.defaults
+            if not (len(d) == 1 and isinstance(d[0], ast.Constant) and d[0].value is False):
+                ctx.violation("R5.5", f"{qual}:default", DS, fi.node, f"{qual}: default of `masked` is not False (analyses rely on it to exclude masked points)")
+            else:
+                ctx.ok()
+        vals = set(preds.values())
+        if len(vals) != 1:
+            ctx.violation("R5.5", "getters:predicate-mismatch", DS, model.fi(DS, "DataSet.get_impedances").node,
+                          f"get_frequencies and get_impedances filter with different predicates: {preds}")
         else:
-            raise AnalysisError(f"R5.5: filter predicate {p!r} not recognised as a two-way partition")
+            p = next(iter(vals))
+            if p in ("self._mask.get(<i>, False) == masked",) or (p.startswith("self.") and p.endswith(" == masked")):
+                ctx.ok()  # x == True / x == False partition the index set
+            else:
+                raise AnalysisError(f"R5.5: filter predicate {p!r} not recognised as a two-way partition")
     # derived mask state must be refreshed on every path that changes the mask
     derived = set().union(*flags.values()) - {"_mask"}
     for dattr in sorted(derived):
